@@ -48,7 +48,8 @@ def snap_value(v, depth=0):
 
 def snap_component(c, depth=0):
     props = []
-    for k, v in OrderedDict.items(c):
+    # the C-level items() of whichever built-in mapping the component class is built on
+    for k, v in (OrderedDict if isinstance(c, OrderedDict) else dict).items(c):
         props.append([k, snap_value(v)])
     return {
         "cls": type(c).__name__,
